@@ -20,9 +20,8 @@ CLASSIFY_PURE = [
 _PURE_NOTE = ("Assumed: numpy primitives as specified in pyvc/libspec.py; floats as reals; int64 does not overflow; "
               "termination of the deferred-acceptance while loop is not proved. Every SQL statement enters through an assumed "
               "contract (contracts/sql.py, keyed by the statement text read from /repo) and the Loaded(db) facts stated there; "
-              "the C02 clause of disambiguate_matching (no blocking pair in terms of durations and start offsets) is a "
-              "`checked_natively` clause: evaluated by the bounded native run on all small many-to-many relations, never assumed "
-              "at call sites, not counted in `discharged`.")
+              "the contract of disambiguate_matching (including the C02 clause) is also evaluated natively on all small "
+              "many-to-many relations (validation of the contract text, not counted in `discharged`).")
 
 
 def _tables(pid):
@@ -54,14 +53,14 @@ PROPS = {
                       "pair blocks the result (storm side by list position, rise side by preference value); and, with strict "
                       "preferences of the rises, for an ARBITRARY well-formed stable matching mu (logical variables) the invariant "
                       "'no storm has lost its mu-partner' gives that every storm does at least as well as in mu: the result is the "
-                      "storm-optimal stable matching, hence independent of the order in which storms are served. In disambiguate_matching "
-                      "the pieces that connect list positions and preference values to durations and start offsets are proved "
-                      "(candidate lists sorted by duration gap with the best last, preference = -|start offset|, matched pairs are "
-                      "listed pairs), and lemma blocking_translation proves that these premises together with 'every candidate pair "
-                      "is on its storm's list' and 'the output is the matching read back' give the property's clause. Applying the "
-                      "lemma inside disambiguate_matching discharged every premise once, but two premises needed minutes of solver "
-                      "time and flipped under load, so the application is not part of the check: the clause itself is a "
-                      "`checked_natively` clause (bounded native run on all small many-to-many relations), as is the table level.",
+                      "storm-optimal stable matching, hence independent of the order in which storms are served. disambiguate_matching "
+                      "carries the property's own clause (no overlapping storm and rise, not matched to each other, with the storm "
+                      "unmatched or strictly closer in duration and the rise unmatched or strictly closer in start) as a discharged "
+                      "postcondition: candidate lists sorted by duration gap with the best last, preference = -|start offset|, every "
+                      "candidate pair at a known place of its storm's list (ghost position maps through the append-only tables and "
+                      "through sorted()), matched pairs read back with their tabulated gaps -- and lemma blocking_translation "
+                      "(proved on its own) combines these with find_stable_matching's stability into the clause. Every obligation "
+                      "proves without recorded hints in a few seconds. The table level is a bounded stand-in.",
         "level_note": _PURE_NOTE,
     },
     "C03": {
